@@ -25,7 +25,9 @@ func (dec *Decoder) readObjectAsMap(structInfo structInfo) map[string]interface{
 	m := make(map[string]interface{}, len(structInfo.names))
 	t := reflect2.TypeOf(m).(*reflect2.UnsafeMapType)
 	if !dec.IsSimple() {
-		dec.refer.Add(m)
+		// registered through its address, like every other map: the converters
+		// take a referenced item for the address of the value
+		dec.refer.Add(&m)
 	}
 	ptr := reflect2.PtrOf(&m)
 	for _, name := range structInfo.names {
